@@ -70,13 +70,16 @@ theorem pickSubset_tracked (F : List Char → Option Rat) (s : State) (conds : L
 theorem tracked_step (F : List Char → Option Rat) (s : State) (op : Op) (hI : Inv s) (h : Tracked s)
     (hop : chainIndName ∉ op.stores) : Tracked (step F s op).1 := by
   cases op with
-  | computeMetric name vals f mode => exact addMetric_tracked _ _ _ h (by intro e; exact hop (by simp [Op.stores, e]))
+  | computeMetric name vals f mode =>
+    exact computeMetric_preserves Tracked _ _ _ _ _ h
+      (fun _ => addMetric_tracked _ _ _ h (by intro e; exact hop (by simp [Op.stores, e])))
   | addMetric name vals => exact addMetric_tracked _ _ _ h (by intro e; exact hop (by simp [Op.stores, e]))
   | computeTimings =>
     apply seqOps_preserves Tracked _ _ s h
     intro o ho s' hs'
     simp only [List.mem_cons, List.not_mem_nil, or_false] at ho
-    rcases ho with rfl | rfl | rfl <;> exact addMetric_tracked _ _ _ hs' (by decide)
+    rcases ho with rfl | rfl | rfl <;>
+      exact computeMetric_preserves Tracked _ _ _ _ _ hs' (fun _ => addMetric_tracked _ _ _ hs' (by decide))
   | pickSubset conds => exact pickSubset_tracked F s conds hI h
   | computeChainMetric name vals f asInt =>
     simp only [step, computeChainMetric]
@@ -216,13 +219,16 @@ theorem synced_step (F : List Char → Option Rat) (s : State) (op : Op) (hI : I
     intro sel hsel
     exact hop sel (hs'.2.2 ▸ hsel) name hmem
   cases op with
-  | computeMetric name vals f mode => exact (hadd s name _ ⟨hI, h, rfl⟩ (by simp [Op.stores])).2.1
+  | computeMetric name vals f mode =>
+    exact computeMetric_preserves (Synced F) _ _ _ _ _ h (fun v => (hadd s name v ⟨hI, h, rfl⟩ (by simp [Op.stores])).2.1)
   | addMetric name vals => exact (hadd s name _ ⟨hI, h, rfl⟩ (by simp [Op.stores])).2.1
   | computeTimings =>
     apply hseq
     intro o ho s' hs'
     simp only [List.mem_cons, List.not_mem_nil, or_false] at ho
-    rcases ho with rfl | rfl | rfl <;> exact hadd s' _ _ hs' (by simp [Op.stores])
+    rcases ho with rfl | rfl | rfl <;>
+      exact computeMetric_preserves (fun t => Inv t ∧ Synced F t ∧ t.sel = s.sel) _ _ _ _ _ hs'
+        (fun v => hadd s' _ v hs' (by simp [Op.stores]))
   | pickSubset conds => exact pickSubset_synced F s conds hI h (hpick conds rfl)
   | computeChainMetric name vals f asInt =>
     simp only [step, computeChainMetric]
